@@ -5,10 +5,19 @@ import MakoModel.Pipeline.LemmasWellLexed
 # C02 – expression substitution applies the filter pipeline in the documented order;
 the expression scanner is never cut short
 
-Model: `MakoModel/Pipeline/Model.lean` (transcription of `create_filter_callable`, `visitExpression`,
-`write_def_finish`, `parse_until_text`, `match_expression`; `DEFAULT_ESCAPES` and the `Template` defaults
-regenerated into `Generated/Pipeline.lean`).  Specification: `pipeline`, `nest`, `evalPipeline`,
-`Spec.wellLexed`, `Spec.firstTopLevel`.
+Model: `MakoModel/Pipeline/Model.lean` – transcription of `create_filter_callable`, `visitExpression`,
+`write_def_finish`, `write_cache_decorator`, `visitCallTag`, the block call site of `visitBlockTag`
+(mako/codegen.py), the key subtraction of `undeclared_identifiers` (mako/parsetree.py), `parse_until_text`,
+`match_expression` and the `+1` rule of `match_reg` (mako/lexer.py).  Regenerated into `Generated/Pipeline.lean`:
+`DEFAULT_ESCAPES`, the `Template` defaults of `default_filters` / `buffer_filters`, whether the call regex of
+`create_filter_callable` ends with `$` (`callRegexAnchored`), `str.isspace`.
+Specification: `pipeline`, `nest`, `evalPipeline`, `Spec.wellLexed`, `Spec.firstTopLevel`.
+
+OPEN (findings of this property on the current tree): none – every theorem below is proved in full strength,
+there is no `_partial` / `_counterexample` pair and no entry for C02 in `known_findings.json`.
+Recorded, but NOT a violation of the property (outside its quantifier): a filter entry that is neither a name nor
+a call, e.g. `f(1).g`, is cut after the call by the unanchored regex (pinned `example` after `resolve_call`;
+`fixes/F-C02-filter-tail.diff` is a candidate repair that is not applied).
 -/
 namespace MakoModel.C02
 open MakoModel.Pipeline MakoModel.Generated.Pipeline
@@ -129,15 +138,24 @@ theorem no_config_no_buffer_filters (defArgs : List Str) (tgt : Str) (cfg : Cfg)
   rw [buffer_filters_after_def_filters, h]
   simp [dropN, nest]
 
-/-- A `buffered="True"` block (named or anonymous) is finished by the same `write_def_finish` as a buffered def, and
-`visitBlockTag` writes what the block function returns at the block's position (`__M_writer(<call> or '')`): the
-block renders in place as `B(F(body))` – its own `filter=` first, then `buffer_filters`, without D and P – and
-as `F(body)` without configuration. -/
-theorem buffered_block_filters_then_buffer_filters (blockArgs bufferFilters : List Str) (tgt : Str) (cfg : Cfg) :
+/-- A `buffered="True"` block (named or anonymous), rendered in place.  The block function is finished by the same
+`write_def_finish` as a buffered def, so it returns `B(F(body))` (`F(body)` without configuration); the block-specific
+part is the call site of `visitBlockTag`, which writes `<call> or ''`: the text is the call followed by ` or ''`,
+and on a str value Python's `v or ''` is `v` – what the block function returns is what appears at the block's
+position (an unbuffered block has written its content itself and returns `''`). -/
+theorem buffered_block_rendered_in_place (blockArgs bufferFilters : List Str) (tgt call : Str) (cfg : Cfg) :
     defFinishExpr blockArgs bufferFilters true false tgt cfg =
       nest ((dropN bufferFilters).map resolve) (nest ((dropN blockArgs).map resolve) tgt) ∧
-    defFinishExpr blockArgs templateBufferFilters true false tgt cfg = nest ((dropN blockArgs).map resolve) tgt :=
-  ⟨buffer_filters_after_def_filters blockArgs bufferFilters tgt cfg, no_config_no_buffer_filters blockArgs tgt cfg⟩
+    defFinishExpr blockArgs templateBufferFilters true false tgt cfg = nest ((dropN blockArgs).map resolve) tgt ∧
+    blockCallSiteExpr call = call ++ " or ''".toList ∧
+    (∀ v : Str, pyOrEmpty v = v) := by
+  refine ⟨buffer_filters_after_def_filters blockArgs bufferFilters tgt cfg,
+    no_config_no_buffer_filters blockArgs tgt cfg, by simp [blockCallSiteExpr], ?_⟩
+  intro v
+  unfold pyOrEmpty
+  split <;> simp_all
+
+example : blockCallSiteExpr "__M_anon_3()".toList = "__M_anon_3() or ''".toList := by decide
 
 /-- a `cached="True"` def: the function whose result is cached ends with the def's own filters only, whether
 buffered or not; `buffer_filters` are applied by the caching wrapper, outside the cache, and only when the def
@@ -356,9 +374,11 @@ example :
       matchExpression s 2 = .node "d['}|'] ".toList "h, f('}')".toList 23 := by
   decide
 
-/-- outside the property's quantifier (a filter entry that is neither a name nor a call): the code generator keeps
-only what `(.+?)(\(.*\))` matches, text after the last `)` is dropped – `${x | f(1).g}` emits `f(1)(x)`; with
-the regex anchored by `$` (fixes/F-C02-filter-tail.diff) the entry is emitted unchanged. -/
+/-- NOT a violation of the property – outside its quantifier (the filters are flags, names, `n` and calls with
+arguments; `f(1).g` is neither a name nor a call): the code generator keeps only what `(.+?)(\(.*\))` matches, so
+text after the last `)` is dropped and `${x | f(1).g}` emits `f(1)(x)`.  `fixes/F-C02-filter-tail.diff` (anchor the
+regex with `$`, the entry is then emitted unchanged) is a candidate repair that is NOT applied; `callRegexAnchored`
+is regenerated from the source, so this example and `resolve_call` follow the code either way. -/
 example : resolve "f(1).g".toList = (if callRegexAnchored then "f(1).g".toList else "f(1)".toList) := by decide
 
 end MakoModel.C02
